@@ -409,7 +409,9 @@ def parse_probe(o):
 
 
 def judge_session(ctx, s, lines, out, u64, variant):
-    """the property's predicates on the implementation's outputs for one session.  Returns list of (msg, line idx)."""
+    """the property's predicates on the implementation's outputs for one session.  Returns list of (msg, line idx, kind):
+    kind "property" = the statement of C18 fails on this input; kind "selection" = the weighted pick differs from the
+    modelled one for the observed draw (a correspondence failure, not by itself a failure of the property)."""
     bad = []
     data = s.bytes_()
     recs = records_of(data)
@@ -420,16 +422,16 @@ def judge_session(ctx, s, lines, out, u64, variant):
         o = out[1 + i]
         es = parse_entries(o)
         if es is None:
-            bad.append((f"unparsable entries answer {o!r}", 1 + i)); continue
+            bad.append((f"unparsable entries answer {o!r}", 1 + i, "property")); continue
         ent_of[p.fen] = es
         mine = [(dec_move(p.fen, mv), w) for (k, mv, w) in recs if k == p.key]
         # only_own_key: a contiguous run of the file's records that carry the probe key
         ok_sub = any(es == [(dec_move(p.fen, mv), w) for (k, mv, w) in recs[a:a + len(es)]] and all(k == p.key for (k, _, _) in recs[a:a + len(es)])
                      for a in range(len(recs) - len(es) + 1)) if es else True
         if not ok_sub:
-            bad.append((f"book entries returned for key {hex(p.key)} are not records of the file stored under that key: {o}", 1 + i))
+            bad.append((f"book entries returned for key {hex(p.key)} are not records of the file stored under that key: {o}", 1 + i, "property"))
         elif srt and es != mine:
-            bad.append((f"sorted book: {len(mine)} records carry key {hex(p.key)} but the probe saw {len(es)} of them ({o})", 1 + i))
+            bad.append((f"sorted book: {len(mine)} records carry key {hex(p.key)} but the probe saw {len(es)} of them ({o})", 1 + i, "property"))
     for j, (p, seed) in enumerate(s.probes):
         idx = 1 + ne + j
         o = out[idx]
@@ -439,16 +441,16 @@ def judge_session(ctx, s, lines, out, u64, variant):
         st_[0] += 1
         st_[1] += 0 if pr is None else 1
         if pr == "garbage":
-            bad.append((f"unparsable probe answer {o!r}", idx)); continue
+            bad.append((f"unparsable probe answer {o!r}", idx, "property")); continue
         legal_triples = [triple_of_uci(p.fen, m) for m in p.legal]
         if pr is not None:
             mv, hl = pr
             if not hl or mv not in legal_triples:
                 bad.append((f"book probe returned {triple_str(mv)} which is not a legal move (MoveGen says {'legal' if hl else 'illegal'}, "
-                            f"Lean genLegal says {'legal' if mv in legal_triples else 'illegal'}) in {p.fen}", idx))
+                            f"Lean genLegal says {'legal' if mv in legal_triples else 'illegal'}) in {p.fen}", idx, "property"))
                 continue
             if not any(k == p.key and dec_move(p.fen, m16) == mv for (k, m16, w) in recs):
-                bad.append((f"book probe returned {triple_str(mv)} but no record of the file under key {hex(p.key)} decodes to it", idx))
+                bad.append((f"book probe returned {triple_str(mv)} but no record of the file under key {hex(p.key)} decodes to it", idx, "property"))
                 continue
         # exact selection for the observed draw, from the candidates the implementation itself reported
         es = ent_of.get(p.fen)
@@ -467,19 +469,24 @@ def judge_session(ctx, s, lines, out, u64, variant):
             got = pr[0] if pr is not None else None
             if got != exp:
                 bad.append((f"selection: candidates {es[:6]}{'...' if len(es) > 6 else ''} draw {hex(u64[seed])}: expected "
-                            f"{triple_str(exp) if exp else 'none'}, probe returned {triple_str(got) if got else 'none'}", idx))
-    if s.family == "reach":
-        p = s.probes[0][0]
-        seen = set()
-        for j in range(len(s.probes)):
-            pr = parse_probe(out[1 + ne + j])
-            if pr not in (None, "garbage"): seen.add(pr[0])
-        want = {dec_move(p.fen, mv) for (k, mv, w) in recs if k == p.key and w > 0}
-        zero = {dec_move(p.fen, mv) for (k, mv, w) in recs if k == p.key and w == 0} - want
-        if not want <= seen:
-            bad.append((f"positive-weight book moves never returned in {len(s.probes)} probes: {sorted(want - seen)}", 1 + ne))
-        if seen & zero:
-            bad.append((f"zero-weight book move returned: {sorted(seen & zero)}", 1 + ne))
+                            f"{triple_str(exp) if exp else 'none'}, probe returned {triple_str(got) if got else 'none'}", idx, "selection"))
+    # "every stored move with positive weight is returned with positive probability": on a well-formed book whose records
+    # under the key are all legal, (a) with many seeds every positive-weight move must show up, (b) never no move at all
+    if s.wellformed and srt:
+        by_pos = {}
+        for j, (p, seed) in enumerate(s.probes):
+            by_pos.setdefault(p.fen, (p, []))[1].append(parse_probe(out[1 + ne + j]))
+        for fen, (p, prs) in by_pos.items():
+            mine = [(dec_move(p.fen, mv), w) for (k, mv, w) in recs if k == p.key]
+            legal_triples = [triple_of_uci(p.fen, m) for m in p.legal]
+            if not mine or not all(m in legal_triples for (m, _) in mine): continue
+            want = {m for (m, w) in mine if w > 0}
+            seen = {pr[0] for pr in prs if pr not in (None, "garbage")}
+            first = 1 + ne + next(j for j, (q, _) in enumerate(s.probes) if q.fen == fen)
+            if want and not seen and len(prs) >= 3:
+                bad.append((f"well-formed book with positive-weight legal moves {sorted(want)[:4]} under the position's key: no move in any of {len(prs)} probes", first, "property"))
+            elif s.family == "reach" and not want <= seen:
+                bad.append((f"positive-weight book moves never returned in {len(prs)} probes: {sorted(want - seen)}", first, "property"))
     return bad
 
 
@@ -518,9 +525,15 @@ def run_sessions(ctx, name, sessions, u64, variant="plain", model=True, nproc=4,
             for l in lines[a + 1:b]: ctx.distinct(l if len(l) < 200 else hash(l))
             ctx.distinct(("book", hash(s.bytes_()) if not s.special else s.special))
             bad = judge_session(ctx, s, lines[a:b], out1[a:b], u64, variant)
-            for msg, i in bad[:2]:
-                ctx.violation(f"{name}/{s.family}: {msg}", {"kind": "property-predicate", "tie": name, "family": s.family, "variant": variant,
-                                                              "input": [lines[a], lines[a + i]], "impl_output": out1[a + i]})
+            bad.sort(key=lambda x: x[2] != "property")
+            for msg, i, kind in bad[:2]:
+                if kind == "property":
+                    ctx.violation(f"{name}/{s.family}: {msg}", {"kind": "property-predicate", "tie": name, "family": s.family, "variant": variant,
+                                                                  "input": [lines[a], lines[a + i]], "impl_output": out1[a + i]})
+                else:
+                    ctx.violation(f"{name}/{s.family}: {msg}", {"kind": "correspondence", "tie": name, "family": s.family, "variant": variant,
+                                                                  "theorem_scope": "Book.selectMove (weighted pick `nextU64() % sum`) no longer corresponds to Book::getBookMove",
+                                                                  "input": [lines[a], lines[a + i]], "impl": out1[a + i]}, no_input=True)
                 nviol += 1
             if model and not bad:
                 for i in range(a, b):
@@ -755,15 +768,15 @@ def run(ctx):
     reach = gen_reach_sessions(ctx, pool, 12 if quick else 300, seeds_many)
     nv += run_sessions(ctx, "reachability", reach, u64, "plain", model=True, nproc=2 if quick else 8)
     huge = gen_huge_sessions(ctx, pool, quick)
-    nv += run_sessions(ctx, "huge-equal-key-runs", huge, u64, "plain", model=True, nproc=len(huge), timeout=120 if quick else 600)
+    nv += run_sessions(ctx, "huge-equal-key-runs", huge, u64, "plain", model=True, nproc=len(huge), timeout=60 if quick else 600)
     # 6. sanitizer build on the malformed families (and a sample of the rest)
     if nv == 0:
         mal = [s for s in sessions if s.family not in ("valid-sorted",)]
         mal = mal if not quick else mal[:150]
         mal += [s for s in sessions if s.family == "valid-sorted"][:(30 if quick else 2000)]
         run_sessions(ctx, "books-asan", mal, u64, "asan", model=False, nproc=4 if quick else 8, timeout=3000)
-        run_sessions(ctx, "huge-equal-key-runs-asan", huge if not quick else huge[:3], u64, "asan", model=False, nproc=3 if quick else 6, timeout=300 if quick else 1200)
-        big_files(ctx, pool, quick)
+    run_sessions(ctx, "huge-equal-key-runs-asan", huge if not quick else huge[:3], u64, "asan", model=False, nproc=3 if quick else 6, timeout=120 if quick else 1200)
+    big_files(ctx, pool, quick)
     ctx.notes.append("probes per family (variant, family): [probes, returned a move] " + json.dumps({f"{k[0]}/{k[1]}": v for k, v in sorted(STATS.items())}))
     # 7. built-in book
     builtin_book(ctx, pool, quick)
